@@ -20,9 +20,9 @@ type markP struct {
 
 func markCases(prop, tier string, seed uint64) []Case {
 	r := newRand(subSeed(seed, prop, tier))
-	n, steps := 36, 16
+	n, steps := 480, 16
 	if tier == "thorough" {
-		n, steps = 480, 30
+		n, steps = 6000, 30
 	}
 	comps := []string{"", "gzip", "parallelgzip", "lz4", "zstandard", "brotli", "bzip2", "parallelbzip2"}
 	var cases []Case
